@@ -400,7 +400,11 @@ impl<'a> ReMatcher<'a> {
         if lowercase_a == lowercase_b {
             return true;
         }
-        false
+        // characters related through case folding but not through their
+        // lower-case mapping, such as U+017F (long s) and S, or U+00B5 (micro
+        // sign) and U+039C: the relation the case closure of a character class
+        // is built from
+        self.case_mapper.simple_fold(a) == self.case_mapper.simple_fold(b)
     }
 
     // state related
